@@ -292,3 +292,47 @@ class MatchStringValue(Contract):
 
     def frame_ok(self, I, inp, obj, name):
         return False
+
+
+# ----------------------------------------------------------------------------------------------- gating is decided anew for every rule
+def _mk_gate_history(method, group, argkind):
+    class C(Contract):
+        __doc__ = f"""ProcessingItem.{method}: the conditions are asked EVERY time - their verdict may depend on state that changes from rule to rule
+        (pipeline state, applied items), so the verdict for the same {argkind} under a later rule is that of the conditions then"""
+        id = f"C13.ProcessingItem.{method}[decided anew]"
+        target = f"sigma.processing.pipeline:{'ProcessingItemBase' if group == 'rule' else 'ProcessingItem'}.{method}"
+        props = ("C13", "C08", "C15")
+        cases = ((False, True), (True, False), (True, True), (False, False))
+        assumed = ["history: the same item answered for the same argument before, while its condition said something else"]
+
+        def args(self, I, case):
+            idx = I.E.index
+            cell = [case[0]]
+            cond = SObj("Cond", {m: NativeFn(m, lambda I2, a, k: cell[0]) for m in ("match", "match_field_name", "match_detection_item", "match_value")})
+            f = {}
+            for g in ("rule", "detection_item", "field_name"):
+                f[f"{g}_condition_expression"] = None
+                f[f"{g}_condition_linking"] = I.E.builtins["all"]
+                f[f"{g}_conditions"] = [cond] if g == group else []
+                f[f"{g}_condition_negation"] = False
+            me = SObj(idx.lookup("sigma.processing.pipeline:ProcessingItem"), f, lazy=True)
+            arg = "fieldname" if argkind == "field name" else SObj(idx.lookup("sigma.rule.rule:SigmaRule" if argkind == "rule" else "sigma.rule.detection:SigmaDetectionItem"), {"field": "fieldname", "value": []}, lazy=True)
+            return {"self": me, "args": [arg], "cell": cell, "case": case}
+
+        def before(self, I, inp):
+            r0 = I.call_function(I.E.index.lookup(self.target), inp["self"], list(inp["args"]), {})
+            I.ctx.require(ops.truth(I, r0) is inp["case"][0], "the earlier answer is the condition's verdict then")
+            inp["cell"][0] = inp["case"][1]
+
+        def post(self, I, inp, r):
+            I.ctx.require(ops.truth(I, r) is inp["case"][1], f"the answer is the condition's verdict now ({inp['case'][1]}), whatever was answered before ({inp['case'][0]})")
+
+        def frame_ok(self, I, inp, obj, name):
+            return True
+    C.__name__ = f"GateHistory_{method}"
+    return C
+
+
+register(_mk_gate_history("match_field_name", "field_name", "field name"))
+register(_mk_gate_history("match_detection_item", "detection_item", "detection item"))
+register(_mk_gate_history("match_rule_conditions", "rule", "rule"))
